@@ -30,6 +30,26 @@ def judge(case):
     if sys.getrecursionlimit() > 1000:
         raise harness.HarnessError("recursion limit was raised")
     T = sg.Tensor
+    if kind.startswith("untracked_layer_chain"):
+        nn = sg.nn
+        which = kind.split(":")[1]
+        sg.manual_seed(3)
+        if which == "conv2d": L = nn.Conv2d(1, 1, 3, padding=1); x = T(np.ones((1, 1, 4, 4), dtype=np.float32) * 0.1)
+        elif which == "conv1d": L = nn.Conv1d(1, 1, 3, padding=1); x = T(np.ones((1, 1, 6), dtype=np.float32) * 0.1)
+        elif which == "linear": L = nn.Linear(3, 3); x = T(np.ones((2, 3), dtype=np.float32) * 0.1)
+        elif which == "batchnorm": L = nn.BatchNorm1d(3); x = T(np.arange(6, dtype=np.float32).reshape(2, 3))
+        else: L = nn.Sequential(nn.Linear(3, 3), nn.Tanh()); x = T(np.ones((2, 3), dtype=np.float32) * 0.1)
+        refs = []
+        m = min(n, 2000)
+        with sg.no_grad():
+            for i in range(m):
+                x = L(x)                              # trainable parameters, but gradient tracking is off
+                if i < m - 10: refs.append(weakref.ref(x))
+        gc.collect()
+        alive = sum(1 for r in refs if r() is not None)
+        if alive > 4:
+            v("history-kept", f"{alive} of {len(refs)} earlier outputs of a {which} layer applied repeatedly under no_grad are still alive")
+        return {"nontrivial": n >= 100, "outcome": "ok", "violations": viol}
     if kind == "detach_each_step":
         w = T(np.array([0.5, -0.25]), requires_grad=True)
         h = T(np.array([1.0, 2.0]))
@@ -195,9 +215,12 @@ def all_cases(tier):
     out = []
     for kind in ("chain", "ladder", "tree", "fanin", "untracked_no_grad", "untracked_no_operand_requires_grad",
                  "untracked_no_grad+retain_grads", "untracked_no_operand_requires_grad+retain_grads",
-                 "untracked_no_grad+varying_scalars", "untracked_no_operand_requires_grad+varying_scalars", "detach_each_step"):
+                 "untracked_no_grad+varying_scalars", "untracked_no_operand_requires_grad+varying_scalars", "detach_each_step",
+                 "untracked_layer_chain:conv2d", "untracked_layer_chain:conv1d", "untracked_layer_chain:linear", "untracked_layer_chain:batchnorm",
+                 "untracked_layer_chain:sequential"):
         for n in sizes:
             if kind == "ladder" and n > 20000: continue
+            if kind.startswith("untracked_layer_chain") and n not in (100, 1000): continue
             out.append({"kind": kind, "n": n})
     for shape in ("chain", "ladder", "tree", "fanin", "fanin_stack_computed"):
         for n in ((100, 250) if tier == "quick" else (100, 250, 600)):
